@@ -35,8 +35,9 @@ def seqValueClasses : List Cls := [.list, .tuple, .set, .frozenset, .MultiInputO
 def atomOK (c : Cls) (p : Payload) : Bool :=
   match p with
   | .unit => c == .NoneType
-  | .int i => c == .int || c == .float || (c == .bool && (i == 0 || i == 1))
-  | .str _ => c == .str || c == .PosixPath
+  | .int i => c == .int || c == .float || ((c == .bool || c == .FieldBoolean) && (i == 0 || i == 1))
+      || c == .FieldInteger || c == .FieldDecimal
+  | .str _ => c == .str || c == .PosixPath || c == .FieldText
   | .bytes b => c == .bytes && b.all (· < 256)
 
 mutual
@@ -166,6 +167,90 @@ def pbEx21 (sac : Bool) (c : Cls) (v : V) : Bool :=
 def pgEx21 (o : Cls) (v : V) : Bool :=
   (!(isInstance v o) && ctorKind o == .noCtor) || (isInstance v o && (issub v.cls .Mapping || isSetCls v.cls))
 def ex21 (sac : Bool) (T : Ty) (v : V) : Bool := hit (pbEx21 sac) pgEx21 T v
+
+/-! ## General traversal: generic predicates see the pattern arguments, union nodes have their own predicate -/
+
+mutual
+/-- like `hit`, with `pg o args v` (the generic origin `o[args]` meets `v`) and `pu alts v` (a Union node meets `v`) -/
+def hitX (pb : Cls → V → Bool) (pg : Cls → List Ty → V → Bool) (pu : List Ty → V → Bool) : Ty → V → Bool
+  | .any, _ => false
+  | .cls c, v => pb c v
+  | .union l, v => pu l v || hitXAny pb pg pu l v
+  | .tupleVar t, v => pg .tuple [t] v || (elems v).any (fun x => hitX pb pg pu t x)
+  | .gen o args, v =>
+      if o == MIO then
+        (match args with
+         | [a] => hitX pb pg pu a v || (elems v).any (fun x => hitX pb pg pu a x)
+         | _ => false)
+      else
+        pg o args v ||
+        (if issub o .tuple then hitXZip pb pg pu args (elems v)
+         else
+          (match args with
+           | [a] => (elems v).any (fun x => hitX pb pg pu a x)
+           | [kp, vp] => (elems v).any (fun x => hitX pb pg pu kp x) || (vals v).any (fun x => hitX pb pg pu vp x)
+           | _ => false))
+def hitXAny (pb : Cls → V → Bool) (pg : Cls → List Ty → V → Bool) (pu : List Ty → V → Bool) : List Ty → V → Bool
+  | [], _ => false
+  | a :: as, v => hitX pb pg pu a v || hitXAny pb pg pu as v
+def hitXZip (pb : Cls → V → Bool) (pg : Cls → List Ty → V → Bool) (pu : List Ty → V → Bool) : List Ty → List V → Bool
+  | a :: as, x :: xs => hitX pb pg pu a x || hitXZip pb pg pu as xs
+  | _, _ => false
+end
+
+def pNoG (_ : Cls) (_ : List Ty) (_ : V) : Bool := false
+def pNoU (_ : List Ty) (_ : V) : Bool := false
+
+@[simp] theorem hitXAny_nil (pb : Cls → V → Bool) (pg : Cls → List Ty → V → Bool) (pu : List Ty → V → Bool) (v : V) :
+    hitXAny pb pg pu [] v = false := by simp [hitXAny]
+@[simp] theorem hitXAny_cons (pb : Cls → V → Bool) (pg : Cls → List Ty → V → Bool) (pu : List Ty → V → Bool)
+    (a : Ty) (as : List Ty) (v : V) :
+    hitXAny pb pg pu (a :: as) v = (hitX pb pg pu a v || hitXAny pb pg pu as v) := by simp [hitXAny]
+@[simp] theorem hitXZip_cons (pb : Cls → V → Bool) (pg : Cls → List Ty → V → Bool) (pu : List Ty → V → Bool)
+    (a : Ty) (as : List Ty) (x : V) (xs : List V) :
+    hitXZip pb pg pu (a :: as) (x :: xs) = (hitX pb pg pu a x || hitXZip pb pg pu as xs) := by simp [hitXZip]
+
+/-! ## C21, whole grammar: exclusions that see the item / key patterns -/
+
+/-- classes all of whose (standard) instances are scalars -/
+def atomOnlyClasses : List Cls := [.NoneType, .bool, .int, .float, .str, .bytes, .PosixPath, .Path, .PathLike]
+
+mutual
+/-- every value this pattern stores is hashable: scalars, tuples of such, frozensets, unions of such -/
+def hashTy : Ty → Bool
+  | .cls c => atomOnlyClasses.contains c
+  | .any => false
+  | .union l => hashTyL l
+  | .gen o args => (o == .tuple && hashTyL args) || o == .frozenset
+  | .tupleVar t => hashTy t
+def hashTyL : List Ty → Bool
+  | [] => true
+  | a :: as => hashTy a && hashTyL as
+end
+
+@[simp] theorem hashTyL_nil : hashTyL [] = true := by simp [hashTyL]
+@[simp] theorem hashTyL_cons (a : Ty) (as : List Ty) : hashTyL (a :: as) = (hashTy a && hashTyL as) := by simp [hashTyL]
+
+def elemHashOK : List Ty → Bool
+  | [a] => hashTy a
+  | _ => true
+def keyHashOK : List Ty → Bool
+  | [kp, _] => hashTy kp
+  | _ => true
+
+/-- a set / frozenset is (re-)built at this position -/
+def setBuild (o : Cls) (v : V) : Bool :=
+  (isInstance v o && isSetCls v.cls) || (!(isInstance v o) && ctorKind o == .setLike)
+
+/-- exclusions of the whole-grammar C21 theorem at a generic pattern `o[args]`:
+    D25b (abstract origin, value not an instance), D25d (a dict instance of a non-mapping origin: ValueError),
+    D25c in its static form (a set is built from items, or a dict from keys, whose pattern is not `hashTy`) -/
+def pgEx21x (o : Cls) (args : List Ty) (v : V) : Bool :=
+  (!(isInstance v o) && ctorKind o == .noCtor)
+  || (isInstance v o && issub v.cls .Mapping && !(issub o .Mapping))
+  || (setBuild o v && !(elemHashOK args))
+  || (issub o .Mapping && !(keyHashOK args))
+def ex21x (sac : Bool) (T : Ty) (v : V) : Bool := hitX (pbEx21 sac) pgEx21x pNoU T v
 
 /-! ### unfolding lemmas for the list-level helper functions -/
 
